@@ -24,6 +24,7 @@ static inline TE* TEB_front(TEBs* b) { return b->g_size > 0 ? &b->front_ev : NUL
 void TEB_pop_front(TEBs* b)
 __CPROVER_requires(__CPROVER_is_fresh(b, sizeof(*b)))
 __CPROVER_requires(b->g_size > 0) /*@ C03 "only a non-empty buffer is popped" */
+__CPROVER_requires(b->front_ev.named_args == NULL || b->front_ev.named_args->g_cleared) /*@ C10,C03 "the named args of an event are released before its slot is recycled, on every path including the exception paths: a later statement decoded into the slot never inherits them" */
 __CPROVER_assigns(b->g_size, b->g_popped, b->front_ev, g_pops, g_clock, g_t_pop)
 __CPROVER_ensures(b->g_size == OLD(b->g_size) - 1 && b->g_popped == OLD(b->g_popped) + 1 && g_pops == OLD(g_pops) + 1 && g_clock == OLD(g_clock) + 1 && g_t_pop == g_clock);
 void NA_clear(NA* n) __CPROVER_requires(__CPROVER_is_fresh(n, sizeof(*n))) __CPROVER_assigns(n->g_cleared) __CPROVER_ensures(n->g_cleared);
